@@ -416,3 +416,323 @@ Proof.
   rewrite (h_is_type_ok h _ Hwf).
   destruct Hwf; cbn [buf logical fst]; rewrite Nat.eqb_refl; reflexivity.
 Qed.
+
+(* ------------------------------------------------------------------------------------ *)
+(* 4. states: invariant, abstraction, refinement *)
+
+Section Assoc.
+  Context {A B : Type}.
+  Variable f : A -> B.
+
+  Definition map_snd (l : list (nat * A)) : list (nat * B) := map (fun p => (fst p, f (snd p))) l.
+
+  Lemma get_reg_map : forall r l, get_reg r (map_snd l) = option_map f (get_reg r l).
+  Proof.
+    intros r l. induction l as [|[k x] l IH]; simpl; [reflexivity|].
+    destruct (k =? r); [reflexivity | exact IH].
+  Qed.
+
+  Lemma del_reg_map : forall r l, del_reg r (map_snd l) = map_snd (del_reg r l).
+  Proof.
+    intros r l. induction l as [|[k x] l IH]; simpl; [reflexivity|].
+    destruct (k =? r); [reflexivity | simpl; rewrite IH; reflexivity].
+  Qed.
+End Assoc.
+
+Lemma get_reg_Forall : forall (A : Type) (P : nat * A -> Prop) r l x,
+  Forall P l -> get_reg r l = Some x -> P (r, x).
+Proof.
+  intros A P r l x HF. induction HF as [|[k y] l Hp HF IH]; simpl; [discriminate|].
+  destruct (Nat.eqb_spec k r) as [->|Hne]; [|exact IH].
+  intro E. inversion E; subst. exact Hp.
+Qed.
+
+Lemma del_reg_Forall : forall (A : Type) (P : nat * A -> Prop) r l,
+  Forall P l -> Forall P (del_reg r l).
+Proof.
+  intros A P r l HF. induction HF as [|[k y] l Hp HF IH]; simpl; [constructor|].
+  destruct (k =? r); [exact HF | constructor; assumption].
+Qed.
+
+Lemma get_reg_del_other : forall (A : Type) r k (l : list (nat * A)), k <> r -> get_reg k (del_reg r l) = get_reg k l.
+Proof.
+  intros A r k l Hne. induction l as [|[j y] l IH]; simpl; [reflexivity|].
+  destruct (Nat.eqb_spec j r) as [->|Hjr].
+  - destruct (Nat.eqb_spec r k); [congruence | reflexivity].
+  - simpl. destruct (j =? k); [reflexivity | exact IH].
+Qed.
+
+Definition r_own (p : nat * rstate) : list lent := h_own (holder_of (snd p)).
+
+Lemma r_own_pair : forall r x, r_own (r, x) = h_own (holder_of x).
+Proof. reflexivity. Qed.
+
+Definition owned (s : state) : list lent := flat_map r_own (regs s) ++ flat_map h_own (queue s).
+
+Lemma get_reg_own : forall r l x, get_reg r l = Some x ->
+  forall e, cnt (flat_map r_own l) e = cnt (h_own (holder_of x)) e + cnt (flat_map r_own (del_reg r l)) e.
+Proof.
+  intros r l x. induction l as [|[k y] l IH]; simpl; [discriminate|].
+  destruct (k =? r).
+  - intro E. inversion E; subst. intro e. rewrite count_occ_app. reflexivity.
+  - intros E e. simpl. rewrite !count_occ_app. rewrite (IH E e). unfold r_own at 1 3. simpl. lia.
+Qed.
+
+Definition r_wf (p : nat * rstate) : Prop :=
+  match snd p with
+  | RLive h a0 => wf_live h /\ h_address h = a0
+  | RMoved h => wf_shell h
+  end.
+
+Record Inv (s : state) : Prop := mkInv {
+  inv_regs : Forall r_wf (regs s);
+  inv_queue : Forall wf_live (queue s);
+  inv_led : linv (led s) (owned s) }.
+
+Definition abs_r (x : rstate) : sreg :=
+  match x with
+  | RLive h _ => SLive (fst (logical h)) (snd (logical h))
+  | RMoved _ => SMoved
+  end.
+
+Definition abs (s : state) : sstate :=
+  mkSS (map_snd abs_r (regs s)) (map logical (queue s)) (map erase (trace s)).
+
+Lemma Inv_init : Inv init.
+Proof. constructor; simpl; [constructor | constructor | exact linv_init]. Qed.
+
+Lemma abs_init : abs init = s_init.
+Proof. reflexivity. Qed.
+
+Lemma abs_emit : forall e s, abs (emit e s) = s_emit (erase e) (abs s).
+Proof. intros e s. unfold abs, emit, s_emit. simpl. rewrite map_app. reflexivity. Qed.
+
+Lemma Inv_emit : forall e s, Inv s -> Inv (emit e s).
+Proof. intros e s [H1 H2 H3]. constructor; assumption. Qed.
+
+Lemma abs_get : forall r s, get_reg r (sregs (abs s)) = option_map abs_r (get_reg r (regs s)).
+Proof. intros. unfold abs. simpl. apply get_reg_map. Qed.
+
+(* counting the live counted payloads *)
+Lemma count_regs : forall tracked l, Forall r_wf l -> existsb is_moved l = false ->
+  length (filter (counted tracked) (flat_map r_own l)) =
+  length (filter (fun p => match snd p with SLive t _ => tracked t | SMoved => false end) (map_snd abs_r l)).
+Proof.
+  intros tracked l HF. induction HF as [|[k x] l Hp HF IH]; simpl; [reflexivity|].
+  intro Hm. apply orb_false_iff in Hm. destruct Hm as [Hm1 Hm2].
+  rewrite filter_app, app_length, (IH Hm2).
+  destruct x as [h a0|h]; [|discriminate]. destruct Hp as [Hwf _].
+  unfold r_own. simpl. destruct Hwf; simpl; unfold counted; simpl; destruct (tracked (ty o)); reflexivity.
+Qed.
+
+Lemma count_queue : forall tracked q, Forall wf_live q ->
+  length (filter (counted tracked) (flat_map h_own q)) =
+  length (filter (fun e => tracked (fst e)) (map logical q)).
+Proof.
+  intros tracked q HF. induction HF as [|h q Hwf HF IH]; simpl; [reflexivity|].
+  rewrite filter_app, app_length, IH.
+  destruct Hwf; simpl; unfold counted; simpl; destruct (tracked (ty o)); reflexivity.
+Qed.
+
+Lemma existsb_moved_abs : forall l, existsb s_is_moved (map_snd abs_r l) = existsb is_moved l.
+Proof.
+  induction l as [|[k x] l IH]; simpl; [reflexivity|]. rewrite IH. destruct x; reflexivity.
+Qed.
+
+Lemma ledger_count : forall tracked s, Inv s -> existsb is_moved (regs s) = false ->
+  l_count tracked (led s) = s_count tracked (abs s).
+Proof.
+  intros tracked s [H1 H2 H3] Hm. unfold l_count, s_count.
+  rewrite <- (same_filter_len (counted tracked) _ _ (li_same _ _ H3)).
+  unfold owned. rewrite filter_app, app_length.
+  rewrite (count_regs tracked _ H1 Hm), (count_queue tracked _ H2). reflexivity.
+Qed.
+
+(* process(): every slot is delivered and destroyed *)
+Lemma process_all_ok : forall q L tr rest, Forall wf_live q -> linv L (flat_map h_own q ++ rest) ->
+  exists L', process_all q L tr = (L', tr ++ map (fun e => EDeliver true (snd e)) (map logical q)) /\ linv L' rest.
+Proof.
+  induction q as [|h q IH]; intros L tr rest HF HL; simpl.
+  - exists L. rewrite app_nil_r. split; [reflexivity | exact HL].
+  - inversion HF as [|? ? Hwf HF']; subst. simpl in HL. rewrite <- app_assoc in HL.
+    rewrite (deliver_ok h L _ Hwf HL).
+    assert (HL' : linv (h_destroy h L) (flat_map h_own q ++ rest)) by (apply h_destroy_ok; [left; exact Hwf | exact HL]).
+    destruct (IH (h_destroy h L) (tr ++ [EDeliver true (snd (logical h))]) rest HF' HL') as (L' & E & HL'').
+    exists L'. rewrite E. rewrite <- app_assoc. split; [reflexivity | exact HL''].
+Qed.
+
+Lemma destroy_all_ok : forall hs L rest, Forall (fun h => wf_live h \/ wf_shell h) hs ->
+  linv L (flat_map h_own hs ++ rest) -> linv (destroy_all hs L) rest.
+Proof.
+  induction hs as [|h hs IH]; intros L rest HF HL; simpl; [exact HL|].
+  inversion HF as [|? ? Hwf HF']; subst. simpl in HL. rewrite <- app_assoc in HL.
+  apply IH; [exact HF'|]. apply h_destroy_ok; assumption.
+Qed.
+
+Lemma map_erase_deliver : forall (l : list (nat * Z)),
+  map erase (map (fun e => EDeliver true (snd e)) l) = map (fun e => EDeliver true (snd e)) l.
+Proof. induction l; simpl; [reflexivity | rewrite IHl; reflexivity]. Qed.
+
+Section StepProofs.
+  Variables (cap ls : N) (tracked : nat -> bool).
+
+  Ltac inv_regs_tac := idtac.
+
+  Theorem step_refines : forall s c, Inv s ->
+    Inv (step cap ls tracked s c) /\ abs (step cap ls tracked s c) = s_step tracked (abs s) c.
+  Proof.
+    intros s c HI. pose proof HI as [HR HQ HL].
+    destruct c as [r t sz v|r r'|r|r t|r|r|r|r|t sz v| |r| |l]; cbn [step s_step].
+    - (* Make *)
+      rewrite abs_get. destruct (get_reg r (regs s)) as [x|] eqn:Eg; cbn [option_map].
+      + split; [apply Inv_emit; exact HI | apply abs_emit].
+      + destruct (h_make_ok cap ls (nexth s) t sz v (led s) (owned s) HL) as (h & L' & E & HL' & Hwf & Hlog & _).
+        rewrite E. split.
+        * constructor; cbn [regs queue led].
+          -- constructor; [split; [exact Hwf | reflexivity] | exact HR].
+          -- exact HQ.
+          -- eapply linv_same; [|exact HL']. intro e. unfold owned. cbn [regs queue flat_map]. rewrite ?r_own_pair. cbn [holder_of].
+             rewrite !count_occ_app. lia.
+        * unfold abs. cbn [regs queue trace map_snd map fst snd abs_r]. rewrite Hlog. reflexivity.
+    - (* Move *)
+      rewrite !abs_get. destruct (get_reg r (regs s)) as [[h a0|h]|] eqn:Eg; cbn [option_map abs_r];
+        try (split; [apply Inv_emit; exact HI | apply abs_emit]).
+      destruct (get_reg r' (regs s)) as [y|] eqn:Eg'; cbn [option_map];
+        try (split; [apply Inv_emit; exact HI | apply abs_emit]).
+      destruct (get_reg_Forall _ _ _ _ _ HR Eg) as [Hwf Ha]. cbn [snd] in *.
+      assert (HL1 : linv (led s) (h_own h ++ flat_map r_own (del_reg r (regs s)) ++ flat_map h_own (queue s))).
+      { eapply linv_same; [|exact HL]. intro e. unfold owned. rewrite !count_occ_app.
+        rewrite (get_reg_own r _ _ Eg e). cbn [holder_of]. lia. }
+      destruct (h_move_ok (nexth s) h (led s) _ Hwf HL1) as (hn & hs & L' & E & HL' & Hwfn & Hwfs & Hlog & _).
+      rewrite E. split.
+      + constructor; cbn [regs queue led].
+        * constructor; [split; [exact Hwfn | reflexivity]|]. constructor; [exact Hwfs|]. apply del_reg_Forall. exact HR.
+        * exact HQ.
+        * eapply linv_same; [|exact HL']. intro e. unfold owned. cbn [regs queue flat_map]. rewrite ?r_own_pair. cbn [holder_of].
+          rewrite !count_occ_app. lia.
+      + unfold abs. cbn [regs queue trace map_snd map fst snd abs_r]. rewrite Hlog.
+        fold (map_snd abs_r (del_reg r (regs s))). rewrite <- del_reg_map. reflexivity.
+    - (* Get *)
+      rewrite abs_get. destruct (get_reg r (regs s)) as [[h a0|h]|] eqn:Eg; cbn [option_map abs_r];
+        try (split; [apply Inv_emit; exact HI | apply abs_emit]).
+      destruct (get_reg_Forall _ _ _ _ _ HR Eg) as [Hwf Ha]. cbn [snd] in *.
+      assert (HL1 : linv (led s) (h_own h ++ flat_map r_own (del_reg r (regs s)) ++ flat_map h_own (queue s))).
+      { eapply linv_same; [|exact HL]. intro e. unfold owned. rewrite !count_occ_app.
+        rewrite (get_reg_own r _ _ Eg e). cbn [holder_of]. lia. }
+      rewrite (h_get_ok h (led s) _ Hwf HL1). split.
+      + constructor; assumption.
+      + unfold abs, s_emit. cbn [regs queue trace sregs squeue strace]. rewrite map_app. reflexivity.
+    - (* IsType *)
+      rewrite abs_get. destruct (get_reg r (regs s)) as [[h a0|h]|] eqn:Eg; cbn [option_map abs_r];
+        try (split; [apply Inv_emit; exact HI | apply abs_emit]).
+      destruct (get_reg_Forall _ _ _ _ _ HR Eg) as [Hwf Ha].
+      split; [apply Inv_emit; exact HI|]. rewrite abs_emit. rewrite (h_is_type_ok h t Hwf). reflexivity.
+    - (* Addr *)
+      rewrite abs_get. destruct (get_reg r (regs s)) as [[h a0|h]|] eqn:Eg; cbn [option_map abs_r];
+        try (split; [apply Inv_emit; exact HI | apply abs_emit]).
+      destruct (get_reg_Forall _ _ _ _ _ HR Eg) as [Hwf Ha]. cbn [snd] in Ha.
+      split; [apply Inv_emit; exact HI|]. rewrite abs_emit. rewrite <- Ha, (h_address_ok h Hwf). reflexivity.
+    - (* Where *)
+      rewrite abs_get. destruct (get_reg r (regs s)) as [[h a0|h]|] eqn:Eg; cbn [option_map abs_r];
+        try (split; [apply Inv_emit; exact HI | apply abs_emit]).
+    - (* Destroy *)
+      rewrite abs_get. destruct (get_reg r (regs s)) as [x|] eqn:Eg; cbn [option_map];
+        try (split; [apply Inv_emit; exact HI | apply abs_emit]).
+      assert (Hwf : wf_live (holder_of x) \/ wf_shell (holder_of x)).
+      { pose proof (get_reg_Forall _ _ _ _ _ HR Eg) as Hx. unfold r_wf in Hx. cbn [snd] in Hx.
+        destruct x; cbn [holder_of]; [left; apply Hx | right; exact Hx]. }
+      assert (HL1 : linv (led s) (h_own (holder_of x) ++ flat_map r_own (del_reg r (regs s)) ++ flat_map h_own (queue s))).
+      { eapply linv_same; [|exact HL]. intro e. unfold owned. rewrite !count_occ_app.
+        rewrite (get_reg_own r _ _ Eg e). lia. }
+      split.
+      + constructor; cbn [regs queue led].
+        * apply del_reg_Forall. exact HR.
+        * exact HQ.
+        * apply h_destroy_ok; assumption.
+      + unfold abs. cbn [regs queue trace]. rewrite <- del_reg_map. destruct x; reflexivity.
+    - (* Enqueue *)
+      rewrite abs_get. destruct (get_reg r (regs s)) as [[h a0|h]|] eqn:Eg; cbn [option_map abs_r];
+        try (split; [apply Inv_emit; exact HI | apply abs_emit]).
+      destruct (get_reg_Forall _ _ _ _ _ HR Eg) as [Hwf Ha]. cbn [snd] in *.
+      assert (HL1 : linv (led s) (h_own h ++ flat_map r_own (del_reg r (regs s)) ++ flat_map h_own (queue s))).
+      { eapply linv_same; [|exact HL]. intro e. unfold owned. rewrite !count_occ_app.
+        rewrite (get_reg_own r _ _ Eg e). cbn [holder_of]. lia. }
+      destruct (h_move_ok (nexth s) h (led s) _ Hwf HL1) as (tmp & hs & L1 & E1 & HL2 & Hwft & Hwfs & Hlog1 & _).
+      rewrite E1.
+      destruct (h_move_ok (S (nexth s)) tmp L1 _ Hwft HL2) as (slot & tmps & L2 & E2 & HL3 & Hwfsl & Hwfts & Hlog2 & _).
+      rewrite E2.
+      assert (HL4 : linv L2 (h_own tmps ++ h_own slot ++ h_own hs ++ flat_map r_own (del_reg r (regs s)) ++ flat_map h_own (queue s))).
+      { eapply linv_same; [|exact HL3]. intro e. rewrite !count_occ_app. lia. }
+      split.
+      + constructor; cbn [regs queue led].
+        * constructor; [exact Hwfs|]. apply del_reg_Forall. exact HR.
+        * apply Forall_app. split; [exact HQ | constructor; [exact Hwfsl | constructor]].
+        * eapply linv_same; [|apply (h_destroy_ok tmps L2 _ (or_intror Hwfts) HL4)].
+          intro e. unfold owned. cbn [regs queue flat_map]. rewrite ?r_own_pair. cbn [holder_of].
+          rewrite flat_map_app. cbn [flat_map]. rewrite !count_occ_app. cbn [count_occ]. lia.
+      + unfold abs. cbn [regs queue trace map_snd map fst snd abs_r].
+        fold (map_snd abs_r (del_reg r (regs s))). rewrite <- del_reg_map.
+        rewrite map_app. cbn [map]. rewrite Hlog2, Hlog1. rewrite <- surjective_pairing. reflexivity.
+    - (* QMake *)
+      destruct (h_make_ok cap ls (nexth s) t sz v (led s) (owned s) HL) as (tmp & L1 & E1 & HL1 & Hwft & Hlog & _).
+      rewrite E1.
+      destruct (h_move_ok (S (nexth s)) tmp L1 _ Hwft HL1) as (slot & tmps & L2 & E2 & HL2 & Hwfsl & Hwfts & Hlog2 & _).
+      rewrite E2.
+      assert (HL3 : linv L2 (h_own tmps ++ h_own slot ++ owned s)).
+      { eapply linv_same; [|exact HL2]. intro e. rewrite !count_occ_app. lia. }
+      split.
+      + constructor; cbn [regs queue led].
+        * exact HR.
+        * apply Forall_app. split; [exact HQ | constructor; [exact Hwfsl | constructor]].
+        * eapply linv_same; [|apply (h_destroy_ok tmps L2 _ (or_intror Hwfts) HL3)].
+          intro e. unfold owned. cbn [regs queue].
+          rewrite flat_map_app. cbn [flat_map]. rewrite !count_occ_app. cbn [count_occ]. lia.
+      + unfold abs. cbn [regs queue trace]. rewrite map_app. cbn [map]. rewrite Hlog2, Hlog. reflexivity.
+    - (* Process *)
+      assert (HL1 : linv (led s) (flat_map h_own (queue s) ++ flat_map r_own (regs s))).
+      { eapply linv_same; [|exact HL]. intro e. unfold owned. rewrite !count_occ_app. lia. }
+      destruct (process_all_ok (queue s) (led s) (trace s) _ HQ HL1) as (L' & E & HL').
+      rewrite E. split.
+      + constructor; cbn [regs queue led]; [exact HR | constructor |].
+        eapply linv_same; [|exact HL']. intro e. unfold owned. cbn [regs queue flat_map]. rewrite app_nil_r. reflexivity.
+      + unfold abs. cbn [regs queue trace sregs squeue strace map]. rewrite map_app, map_erase_deliver. reflexivity.
+    - (* Take *)
+      rewrite abs_get. destruct (get_reg r (regs s)) as [x|] eqn:Eg; cbn [option_map].
+      { destruct (squeue (abs s)); split; try (apply Inv_emit; exact HI); apply abs_emit. }
+      destruct (queue s) as [|h q] eqn:Eq.
+      { unfold abs at 2. rewrite Eq. cbn [squeue map]. split; [apply Inv_emit; exact HI | apply abs_emit]. }
+      inversion HQ as [|? ? Hwf HQ']; subst.
+      assert (HL1 : linv (led s) (h_own h ++ flat_map r_own (regs s) ++ flat_map h_own q)).
+      { eapply linv_same; [|exact HL]. intro e. unfold owned. rewrite Eq. cbn [flat_map]. rewrite !count_occ_app. lia. }
+      destruct (h_move_ok (nexth s) h (led s) _ Hwf HL1) as (hn & hs & L1 & E1 & HL2 & Hwfn & Hwfs & Hlog & _).
+      rewrite E1.
+      assert (HL3 : linv L1 (h_own hs ++ h_own hn ++ flat_map r_own (regs s) ++ flat_map h_own q)).
+      { eapply linv_same; [|exact HL2]. intro e. rewrite !count_occ_app. lia. }
+      split.
+      + constructor; cbn [regs queue led].
+        * constructor; [split; [exact Hwfn | reflexivity] | exact HR].
+        * exact HQ'.
+        * eapply linv_same; [|apply (h_destroy_ok hs L1 _ (or_intror Hwfs) HL3)].
+          intro e. unfold owned. cbn [regs queue flat_map]. rewrite ?r_own_pair. cbn [holder_of]. rewrite !count_occ_app. lia.
+      + unfold abs at 2. rewrite Eq. cbn [squeue map]. destruct (logical h) as [t0 v0] eqn:El.
+        unfold abs. cbn [regs queue trace map_snd map fst snd abs_r sregs strace]. rewrite Hlog, El. reflexivity.
+    - (* Ledger *)
+      unfold abs at 2. cbn [sregs]. rewrite existsb_moved_abs.
+      destruct (existsb is_moved (regs s)) eqn:Em.
+      + split; [apply Inv_emit; exact HI | apply abs_emit].
+      + split; [apply Inv_emit; exact HI|]. rewrite abs_emit. cbn [erase].
+        rewrite (ledger_count tracked s HI Em). reflexivity.
+    - (* MaxSz *)
+      destruct l as [|t ts].
+      + split; [apply Inv_emit; exact HI | apply abs_emit].
+      + split; [apply Inv_emit; exact HI|]. rewrite abs_emit. cbn [erase]. rewrite max_size_of_is_max. reflexivity.
+  Qed.
+
+  Theorem run_refines : forall p s, Inv s ->
+    Inv (run cap ls tracked s p) /\ abs (run cap ls tracked s p) = s_run tracked (abs s) p.
+  Proof.
+    induction p as [|c p IH]; intros s HI; simpl; [split; [exact HI | reflexivity]|].
+    destruct (step_refines s c HI) as [HI' Ha]. destruct (IH _ HI') as [HI'' Ha'].
+    split; [exact HI''|]. rewrite Ha', Ha. reflexivity.
+  Qed.
+End StepProofs.
